@@ -6,13 +6,24 @@ logs; an independent oracle states the property on the implementation's records.
 Error payloads include a FALSY exception object (code 13, `__len__` returns 0); subscribers use four
 equivalent full forms (observer object / positional callbacks / keyword callbacks / reactivex Observer);
 an oracle-only family subscribes with PARTIAL callback forms (on_next only, ...: the library's default
-on_error raises) and compares with the same run made with observer objects."""
+on_error raises) and compares with the same run made with observer objects.
+TWO-THREAD family (harness/subj_conc.py, oracle-only): thread A subscribes / unsubscribes while thread B makes
+one complete on_next / on_completed / on_error / dispose call, B being released at every acquire/release point of
+A's operation on subject.lock (instrumented proxy); every such run must show the outcome of [A; B] or of [B; A]
+according to an independent reference written from the statement."""
+import json
+
 import subj
+import subj_conc
 
 
 def run(chk):
+    subj_conc.install(chk, "C21", "behavior")      # runs just before chk.finish
     return subj.check_sync(chk, "C21")
 
 
 def replay(chk, path):
+    d = json.load(open(path))
+    if d.get("family") == "subj_conc":
+        return subj_conc.replay(chk, "C21", d, path)
     return subj.replay_sync(chk, "C21", path)
